@@ -288,7 +288,9 @@ fn fs_scenario(args: &ShardArgs, rng: &mut Rng, rep: &mut Report, i: usize) {
 	if !small_queue {
 		let missing: Vec<u64> = stamped.iter().map(|s| s.0).filter(|id| !delivered.contains_key(id)).collect();
 		if !missing.is_empty() {
-			if gap < Duration::from_millis(500) && shared.errors.lock().unwrap().is_empty() {
+			// only a reported queue overflow excuses a missing event; any other runtime error does not
+			let overflow = shared.errors.lock().unwrap().iter().any(|e| e.contains("EventChannelTrySend"));
+			if gap < Duration::from_millis(500) && !overflow {
 				rep.violation("C01/fs/lost", &format!("{} notify event(s) accepted by the fs worker never reached the action handler: {missing:?}", missing.len()), wit());
 			} else {
 				rep.inconclusive("fs-missing-but-machine-stalled-or-queue-errors");
